@@ -1,0 +1,29 @@
+//! Verification hooks. Compiled only with the `verif-hooks` cargo feature.
+//!
+//! Nothing in here is used by the crate itself; the items only widen visibility for the
+//! out-of-tree verification harnesses.
+
+pub use crate::alloc::{AllocError, AllocProxy, Allocator, CaoLangAllocator, SysAllocator};
+pub use crate::bytecode::{decode_str, encode_str, read_from_bytes, write_to_vec};
+
+use crate::instruction::Instruction;
+use std::convert::TryFrom;
+
+/// Number of opcodes
+pub fn opcode_count() -> u8 {
+    let mut n = 0u8;
+    while Instruction::try_from(n).is_ok() {
+        n += 1;
+    }
+    n
+}
+
+/// `Instruction::span` of an opcode byte, `None` if the byte is not an opcode
+pub fn opcode_span(op: u8) -> Option<usize> {
+    Instruction::try_from(op).ok().map(|i| i.span())
+}
+
+/// Debug name of an opcode byte
+pub fn opcode_name(op: u8) -> Option<String> {
+    Instruction::try_from(op).ok().map(|i| format!("{i:?}"))
+}
